@@ -163,16 +163,21 @@ def fillNext (e : Env) (g : Gen) (t : Nat) : Except Err (List Nat × Gen) :=
 def fillPrev (e : Env) (start stop : Nat) : List Nat :=
   (if start ≤ 2 then [0] else []) ++ e.primes start stop
 
+/-- iterator.cpp:133-137 `if (!iterData.primeGenerator) { updateNext(…); newPrimeGenerator(start_, iterData.stop); }`:
+    the state and the generator the next `fillNextPrimes` works with -/
+def pickGen (e : Env) (s : St) : St × Gen :=
+  match s.mem.gen with
+  | some g => (s, g)
+  | none =>
+    let u := updateNext e.fl s.hint s.mem
+    ({ s with start := u.1, mem := u.2 }, ⟨u.2.stop, u.1⟩)
+
 /-- iterator.cpp:123 `generate_next_primes()` -/
 def genNext (e : Env) : Nat → St → Except Err St
   | 0, _ => .error .hang
   | fuel + 1, s =>
-    let (s1, g) : St × Gen := match s.mem.gen with
-      | some g => (s, g)
-      | none =>
-        let (st, d) := updateNext e.fl s.hint s.mem
-        ({ s with start := st, mem := d }, ⟨d.stop, st⟩)
-    match fillNext e g s1.tick with
+    let s1 := (pickGen e s).1
+    match fillNext e (pickGen e s).2 s1.tick with
     | .error err => .error err
     | .ok (b, g') =>
       if b.isEmpty then
@@ -198,8 +203,8 @@ def genPrev (e : Env) (fuel : Nat) (s : St) : Except Err St :=
     | p :: _ => genPrevLoop e fuel { s with start := p, mem := { s.mem with gen := none } }
   | none => genPrevLoop e fuel s
 
-/-- enough fuel for every loop: each refill moves the window by at least one inside `[0, 2^64)` -/
-def bigFuel : Nat := two64 + 2
+/-- enough fuel for every loop: at most two iterations per position inside `[0, 2^64)` (PcProofs/IterRefine.lean) -/
+def bigFuel : Nat := 2 * two64 + 4
 
 /-- iterator.hpp:127 `next_prime()` -/
 def nextPrime (e : Env) (s : St) : Except Err (Nat × St) :=
